@@ -290,7 +290,7 @@ def plan(tier: str):
     else:
         progs = gen.programs(ALPHA_FULL, [1, 2, 3])
         details, tzs = ["hash", "repr", "context", "all", "hash,repr", "hash,context", "repr,context"], TZS
-    progs = list(progs) + list(SAME_FAMILY_PROGS)
+    progs = list(progs) + list(SAME_FAMILY_PROGS) + list(gen.MENU_PROGS)
     # programs that cannot even be constructed carry no SER: keep a few, drop the bulk
     progs = [p for p in sorted(set(progs)) if sum(gen.SYMBOLS[s]["kind"] == "invalid" for s in p) == 0 or len(p) == 1]
     jobs = []
